@@ -39,7 +39,7 @@ const DS: [D; 5] = [D::None, D::Zero, D::Ns, D::Ms, D::Max];
 const RETRIES: [usize; 5] = [0, 1, 2, usize::MAX - 1, usize::MAX];
 const PATHS: [&str; 4] = ["new", "default", "clap", "serde"];
 pub const CELLS: u64 = 125 * 5 * 4;
-const ENTRIES: u64 = 18;
+const ENTRIES: u64 = 19;
 
 impl D {
     fn dur(self) -> Option<Duration> {
@@ -285,6 +285,22 @@ fn entry_world(sel: u64, ts: Option<TimeoutSettings>, silent: bool, t: &mut Tape
             }
             call(Entry::Generic { game_id, extra: crate::scenarios::gen_extra(t), level: 2 })
         }
+        18 => {
+            // the auto-detecting Minecraft query (it derives the settings of its probes from the caller's)
+            if !silent {
+                // a host every probe gets an answer or a refusal from (a legacy-only host leaves the Java probe
+                // waiting for as long as the read timeout allows: for ever when there is none)
+                let v = *t.pick(CFG, &[Variant::Java, Variant::Bedrock]);
+                if v == Variant::Bedrock {
+                    w.add_server(addr, Proto::Udp, Box::new(McUdpServer { host: McHost::generate(t, vec![Variant::Bedrock]), pings: Vec::new(), outcomes: Vec::new(), attempts: 0 }));
+                } else {
+                    w.add_server(addr, Proto::Tcp, Box::new(McTcpServer::new(McHost::generate(t, vec![v]))));
+                }
+            } else {
+                w.add_tcp_listener_mode(addr, crate::world::TcpListen::BlackHole);
+            }
+            call(Entry::McAuto { settings: None })
+        }
         _ => {
             // the definition-driven dispatch
             if !silent {
@@ -387,7 +403,7 @@ impl Prop for C18 {
     }
 
     fn rule(&self) -> String {
-        format!("case index enumerates all {CELLS} cells = 5^3 (read, write, connect) values from {{None, 0, 1 ns, 1 ms, u64::MAX s}} x 5 retry counts {{0, 1, 2, usize::MAX-1, usize::MAX}} x 4 construction paths (TimeoutSettings::new, Default, a clap parser flattening TimeoutSettings, serde_json); cells a path cannot express (sub-second or None through whole-second flags, non-default through Default) are skipped and counted; every accepted configuration is used for a query on 18 entry points (every protocol family, Eco, the definition-driven dispatch, and two with extra request settings: Java host names of 0 to 70000 bytes with multi-byte characters across the 255-byte and 32767 boundaries and any protocol version, and every gather-toggle combination on a Valve game) against a server that answers the first attempt and, for retries <= 2 and finite timeouts, against a silent one; the simulated OS rejects zero timeouts as the kernel does; oracle: construction rejects exactly the zero-duration cells with an invalid-input error, no construction and no query panics; distinct = (cell, event-log hash)")
+        format!("case index enumerates all {CELLS} cells = 5^3 (read, write, connect) values from {{None, 0, 1 ns, 1 ms, u64::MAX s}} x 5 retry counts {{0, 1, 2, usize::MAX-1, usize::MAX}} x 4 construction paths (TimeoutSettings::new, Default, a clap parser flattening TimeoutSettings, serde_json); cells a path cannot express (sub-second or None through whole-second flags, non-default through Default) are skipped and counted; every accepted configuration is used for a query on 19 entry points (every protocol family, the auto-detecting Minecraft query, Eco, the definition-driven dispatch, and two with extra request settings: Java host names of 0 to 70000 bytes with multi-byte characters across the 255-byte and 32767 boundaries and any protocol version, and every gather-toggle combination on a Valve game) against a server that answers the first attempt and, for retries <= 2 and finite timeouts, against a silent one; the simulated OS rejects zero timeouts as the kernel does; oracle: construction rejects exactly the zero-duration cells with an invalid-input error, no construction and no query panics; distinct = (cell, event-log hash)")
     }
 
     fn assumptions(&self) -> Vec<String> {
